@@ -9,7 +9,7 @@
    variable names (theorems mk_fun_wf / mk_mat_wf).  The iteration order of an expression's
    variable set (PYTHONHASHSEED) is the field [fparams] of the function: every theorem below
    quantifies over it. *)
-From PyDcop Require Import Base M_RelKinds P_RelKinds P_RelKinds2 P_RelKinds3.
+From PyDcop Require Import Base M_RelKinds P_RelKinds P_RelKinds2 P_RelKinds3 P_RelKinds4.
 From Coq Require Import Permutation.
 Open Scope Z_scope.
 
@@ -315,3 +315,31 @@ Proof.
     split; [simpl; tauto|]. split; [reflexivity|]. intros a; simpl; intuition. }
   repeat (split; [vm_compute; reflexivity|]). eexists. vm_compute. reflexivity.
 Qed.
+
+(* ======================= Deepening: failures compose; conditionals' exceptions (P_RelKinds4) ===== *)
+(* after a successful first step the second step raises e iff the one-step slice raises e:
+   "in one step or several" also holds for the failures (non-conditional kinds) *)
+Theorem slice_compose_exceptions : forall b p1 p2 b1 e,
+  wf_b b -> NoDup (map fst (p1 ++ p2)) -> bslice b p1 = Ok b1 ->
+  (bslice b1 p2 = Err e <-> bslice b (p1 ++ p2) = Err e).
+Proof. exact slice_compose_exceptions_l. Qed.
+
+Theorem slice_compose_succeeds : forall b p1 p2 b1,
+  wf_b b -> NoDup (map fst (p1 ++ p2)) -> bslice b p1 = Ok b1 ->
+  ((exists b2, bslice b1 p2 = Ok b2) <-> (exists b12, bslice b (p1 ++ p2) = Ok b12)).
+Proof. exact slice_compose_succeeds_l. Qed.
+
+(* exceptions of a conditional relation, in terms of the statements about its two parts:
+   cond_slice_raises: p decides the condition -> what calling the condition on its share of p
+   raises, or (condition true) what slicing the consequence on its share raises; undecided ->
+   what slicing the condition / the consequence on their shares raises.  Keys of p in neither
+   part never raise.  cond_gv_dict_raises: KeyError for a missing condition variable, what the
+   condition raises, then (true) KeyError for a missing consequence variable, what it raises. *)
+Theorem cond_slice_exceptions_spec : forall c t rn p e,
+  wf_b c -> wf_b t -> NoDup (map fst p) ->
+  (slice (RCond c t rn) p = Err e <-> cond_slice_raises c t p e).
+Proof. exact cond_slice_exceptions_spec_l. Qed.
+
+Theorem cond_gv_dict_exceptions_spec : forall c t rn d e,
+  wf_b c -> wf_b t -> (gv_dict (RCond c t rn) d = Err e <-> cond_gv_dict_raises c t d e).
+Proof. exact cond_gv_dict_exceptions_spec_l. Qed.
